@@ -4,6 +4,16 @@ import json, os
 ROOT = os.path.dirname(os.path.dirname(os.path.abspath(__file__)))
 
 CHECKS = {
+ "C08": dict(
+   text="All short lexeme strings in 10 grammar contexts through every DSL and module entry point (accepted texts continue through printer and both graph builders), JSON and YAML token strings and JSON value replacements through their entry points, every single and pair of protobuf degradations (nil/empty/dropped/renamed parts) through printer, plain graph and weighted builder: no panic, result xor error, unlexable characters outside comments always rejected; work measured as deterministic instrumented step counts from a cold parser: horizon 5e7 steps and growth exponent <= 2.5 between n and 2n repetitions of every short fragment in every insertion context and for scaled model families.",
+   note="Step counts come from build-time instrumentation of repository, antlr runtime, generated parser and yaml.v3; asymptotics judged at n=32/64 only; known finding F11 (form feed runs) suppressed by fragment signature.",
+   technique="bounded exhaustive enumeration of inputs and fault combinations with panic guard and deterministic step-count horizon",
+   design="3/C08"),
+ "C15": dict(
+   text="Every path string up to length 5/6 over the 15-character alphabet of the property (bare and with .fga / %2Efga / %2efga), alone and behind good entries, plus 16 entry sets in 15 YAML presentations and 25 malformed manifests: accepted manifests return schema 1.2 and only relative, dot-dot-free, backslash-free .fga paths, verbatim and in order where no % + \\ occurs, nothing filtered; every entry unsafe by the reference decoder is rejected with an error located at it; reported positions equal the generator's offsets.",
+   note="Over-rejection of reference-safe paths is allowed by the statement; yaml.v3 is atomic; anchored values may be located at anchor or value.",
+   technique="bounded exhaustive enumeration of path strings and YAML presentations against a reference decoder with a source-position oracle",
+   design="3/C15"),
  "C17": dict(
    text="Models with parallel lines, repeated operands, nesting, cycles and defective TTUs are built, rendered, reversed twice, queried for cycles and for paths between all ordered label pairs, under every single-deviation schedule of the repository's and the graph library's map iteration (parallel-line maps fully permuted): structure equals the reference graph in both directions, drawing direction flips, rev(rev(g)).GetDOT() == g.GetDOT(), one DOT text per model over all executions, PathExists agrees with reference reachability in g and reversed in rev(g), label lookup, compile-time-cycle and acyclic flags.",
    note="gonum's map iteration is owned by replacing its reflect-based iterators (build tag safe) and rewriting its range-over-map statements; operand order across different nodes is not observable in a multigraph and not compared; edge conditions of the plain graph have no accessor.",
